@@ -40,7 +40,8 @@ Hosts == {n \o p : n \in Names \cup Literals, p \in Ports} \cup {<<>>}
 
 Entries == {lo, <<DOT>> \o lo, co \o <<DOT>> \o lo, <<DOT>> \o co \o <<DOT>> \o lo, LOup, one,
             L1, B1, lo \o P80, L1 \o P80, lo \o <<DOT, DOT>> \o co, <<DOT>> \o L1}
-Lists == UNION {SeqsLen(Entries, k) : k \in 1..MaxList}
+\* including the configured but EMPTY list: it admits no host at all
+Lists == UNION {SeqsLen(Entries, k) : k \in 0..MaxList}
 
 VARIABLES host, list, phase
 vars == <<host, list, phase>>
@@ -105,6 +106,9 @@ Monotone == (phase = 1 /\ Len(list) = 2) =>
   /\ (Verdicts(NoTab, host, <<list[1]>>) = {FALSE} /\ Verdicts(NoTab, host, <<list[2]>>) = {FALSE})
        => Verdicts(NoTab, host, list) = {FALSE}
   /\ TRUE \in Verdicts(NoTab, host, <<list[1]>>) => TRUE \in Verdicts(NoTab, host, list)
+
+\* a configured empty list trusts nothing (None = "not configured" is not a list and not modelled here)
+EmptyListTrustsNothing == (phase = 1 /\ list = <<>>) => (Verdicts(NoTab, host, list) = {FALSE} /\ Impl(host, list) = "F")
 
 MalformedOut == (phase = 1 /\ Malformed(NoTab, host) /\ (\A i \in 1..Len(list) : host # list[i] /\ host # EntryBody(list[i])))
                   => Verdicts(NoTab, host, list) = {FALSE}
